@@ -101,8 +101,18 @@ def rand_axis_term(rng, n, allow_int=True):
     return t_arr([rng.randrange(-n, n) for _ in range(k)])
 
 
-def rand_term(rng, shape, forms=None):
-    """random valid (term, flat) for a source shape; result size 1..4"""
+def raw_ndim(term, shape, flat):
+    size = int(np.prod(shape))
+    src = np.arange(size)
+    if not flat:
+        src = src.reshape(shape)
+    return np.ndim(src[term_to_py(term)])
+
+
+def rand_term(rng, shape, forms=None, nonscalar=False):
+    """random valid (term, flat) for a source shape; result size 1..4.  nonscalar: the raw NumPy result must have
+    at least one dimension (OpenMDAO does not re-shape a 0-d intermediate result of a src_indices chain to (1,):
+    a following indexer then fails with 'invalid index to scalar variable' - observed, kept out of scope)"""
     size = int(np.prod(shape))
     for _ in range(200):
         flat = rng.random() < .5 if len(shape) > 1 else rng.random() < .3
@@ -143,6 +153,8 @@ def rand_term(rng, shape, forms=None):
         try:
             pos, rshape = np_positions(t, shape, flat)
         except (IndexError, ValueError):
+            continue
+        if nonscalar and raw_ndim(t, shape, flat) == 0:
             continue
         if 1 <= len(pos) <= 4 and len(rshape) <= 2:
             return t, flat, pos, rshape
@@ -255,6 +267,276 @@ def generate(rng, opts=None):
     md = {'comps': comps, 'outs': outs, 'ins': ins, 'groups': gpaths, 'cycle': False,
           'solvers': {}, 'desvars': [], 'responses': []}
     return md
+
+
+def comp_gpath(md, cid):
+    return md['comps'][cid]['group']
+
+
+def add_cycle(rng, md, tries=30):
+    """add one feedback edge (a later component's output feeds an earlier component) if an exactly solvable,
+    moderately sized one is found; marks md['cycle'] and returns True"""
+    comps = [c for c in md['comps'] if c['kind'] != 'ivc']
+    if len(comps) < 2:
+        return False
+    import copy
+    for _ in range(tries):
+        m2 = copy.deepcopy(md)
+        early, late = sorted(rng.sample([c['id'] for c in comps], 2))
+        ce, cl = m2['comps'][early], m2['comps'][late]
+        # must be a real cycle: late depends (transitively) on early
+        src = m2['outs'][rng.choice(cl['outs'])]
+        t, flat, pos, rshape = rand_term(rng, src['shape'], ['arr', 'slice', 'neg'])
+        if len(pos) > 2:
+            continue
+        iid = len(m2['ins'])
+        m2['ins'].append({'id': iid, 'comp': early, 'name': 'fb%d' % iid, 'shape': rshape, 'units': src['units'],
+                          'src': src['id'], 'chain': [{'idx': t, 'shape': list(src['shape']), 'flat': flat}],
+                          'fac': [1, 1], 'off': [0, 1], 'how': 'connect'})
+        ce['ins'].append(iid)
+        for ko, oid in enumerate(ce['outs']):
+            size = int(np.prod(m2['outs'][oid]['shape']))
+            A = [[rng.choice([0, 0, F(1, 2), F(-1, 2), F(1, 4)]) for _ in range(len(pos))] for _ in range(size)]
+            ce['A'][ko].append([[rj(a) for a in row] for row in A])
+            ce['storage'][ko].append(rng.choice(['dense', 'rowscols', 'csc']))
+        if not has_cycle(m2):
+            continue
+        ref = reference(m2)
+        if ref is None or not magnitude_ok(ref, dmax=1 << 7):
+            continue
+        m2['cycle'] = True
+        md.clear()
+        md.update(m2)
+        return True
+    return False
+
+
+def comp_graph(md):
+    g = {c['id']: set() for c in md['comps']}
+    for i in md['ins']:
+        if i.get('src') is not None:
+            g[md['outs'][i['src']]['comp']].add(i['comp'])
+    return g
+
+
+def has_cycle(md):
+    g = comp_graph(md)
+    color = {}
+
+    def dfs(u):
+        color[u] = 1
+        for v in g[u]:
+            if color.get(v) == 1 or (v not in color and dfs(v)):
+                return True
+        color[u] = 2
+        return False
+    return any(u not in color and dfs(u) for u in g)
+
+
+def cyclic_groups(md):
+    """group paths whose direct-children graph contains a cycle (they need iterative / direct solvers)"""
+    res = set()
+    paths = set(md['groups'])
+    for gp in paths:
+        pre = gp + '.' if gp else ''
+
+        def child(cid):
+            cp = (md['comps'][cid]['group'] + '.' if md['comps'][cid]['group'] else '') + md['comps'][cid]['name']
+            if not cp.startswith(pre):
+                return None
+            return cp[len(pre):].split('.')[0]
+        g = {}
+        for i in md['ins']:
+            if i.get('src') is None:
+                continue
+            a, b = child(md['outs'][i['src']]['comp']), child(i['comp'])
+            if a is not None and b is not None and a != b:
+                g.setdefault(a, set()).add(b)
+        color = {}
+
+        def dfs(u):
+            color[u] = 1
+            for v in g.get(u, ()):
+                if color.get(v) == 1 or (v not in color and dfs(v)):
+                    return True
+            color[u] = 2
+            return False
+        if any(u not in color and dfs(u) for u in list(g)):
+            res.add(gp)
+    return res
+
+
+NL_FOR_CYCLE = ['nlbgs', 'newton', 'nlbgs', 'nlbj', 'broyden']
+LN_FOR_CYCLE = [('direct', {}), ('direct', {'assemble_jac': True}), ('lnbgs', {}), ('lnbj', {}), ('krylov', {})]
+LN_ANY = [('runonce', {}), ('direct', {}), ('direct', {'assemble_jac': True}), ('lnbgs', {}), ('krylov', {})]
+
+
+def assign_solvers(rng, md, nl=None, ln=None, jac=None):
+    """legal solver stacks: iterative / direct solvers on every group with a cycle among its children; any linear
+    solver on the root otherwise.  jac: assembled jacobian type for the root ('dense'|'csc'|None)."""
+    sv = {}
+    cg = cyclic_groups(md)
+    for gp in sorted(cg):
+        nln = nl or rng.choice(NL_FOR_CYCLE)
+        if nln == 'broyden' and gp == '':
+            # Broyden over the full model also updates the IndepVarComp outputs (observed: an independent value drifts
+            # by ~1e-5); no listed property covers that, so Broyden is only used on groups without independent variables
+            nln = 'newton'
+        lnn, lo = ln or rng.choice(LN_FOR_CYCLE)
+        if nln == 'newton' and lnn in ('lnbj',):
+            lnn, lo = 'direct', {}
+        if nln == 'broyden' and lnn != 'direct':      # legality: Broyden on the full model needs a DirectSolver
+            lnn, lo = 'direct', {}
+        sv[gp] = {'nl': {'name': nln, 'opts': {'err_on_non_converge': True}},
+                  'ln': {'name': lnn, 'opts': dict(lo, **({} if lnn in ('direct', 'runonce') else {'err_on_non_converge': True}))}}
+    if '' not in sv:
+        lnn, lo = ln or rng.choice(LN_ANY)
+        sv[''] = {'nl': None, 'ln': {'name': lnn, 'opts': dict(lo, **({} if lnn in ('direct', 'runonce') else {'err_on_non_converge': True}))}}
+    if jac:
+        md['jac'] = jac
+    md['solvers'] = sv
+    return sv
+
+
+def add_promotions(rng, md, frac=.5):
+    """re-realise some connections as promotion chains (input promoted upward through 1..k group levels, each level
+    optionally with src_indices/src_shape, then connected), keeping the data graph; also fresh index chains"""
+    outs = md['outs']
+    for i in md['ins']:
+        c = md['comps'][i['comp']]
+        gparts = c['group'].split('.') if c['group'] else []
+        if rng.random() > frac or i['name'].startswith('fb'):
+            continue
+        src = outs[i['src']]
+        nlev = rng.randrange(1, len(gparts) + 2)
+        shape = list(src['shape'])
+        chain = []
+        clink = None
+        if rng.random() < .5:
+            t, flat, pos, rshape = rand_term(rng, shape, nonscalar=True)
+            clink = {'idx': t, 'shape': list(shape), 'flat': flat}
+            chain.append(clink)
+            shape = rshape
+        plinks = []
+        for lvl in range(nlev):          # outermost first
+            if rng.random() < .6:
+                t, flat, pos, rshape = rand_term(rng, shape, nonscalar=True)
+                link = {'idx': t, 'shape': list(shape), 'flat': flat}
+                chain.append(link)
+                plinks.append(link)
+                shape = rshape
+            else:
+                plinks.append(None)
+        i['how'] = 'promote'
+        i['chain'] = chain
+        i['clink'] = clink
+        # plevels inner -> outer
+        i['plevels'] = [{'link': l, 'alias': 'p%d_%s' % (i['id'], i['name'])} for l in reversed(plinks)]
+        if list(i['shape']) != list(shape):
+            resize_input(md, i, shape, rng)
+    return md
+
+
+def resize_input(md, i, shape, rng):
+    """give input i a new shape and redraw the A blocks that read it"""
+    i['shape'] = list(shape)
+    isz = int(np.prod(shape))
+    c = md['comps'][i['comp']]
+    ki = c['ins'].index(i['id'])
+    for ko, oid in enumerate(c['outs']):
+        size = int(np.prod(md['outs'][oid]['shape']))
+        st = c['storage'][ko][ki]
+        A = [[rng.choice([0, 0, 1, 1, -1, 2]) for _ in range(isz)] for _ in range(size)]
+        if st == 'diag':
+            if isz != size:
+                c['storage'][ko][ki] = 'dense'
+            else:
+                A = [[(A[r][r] or 1) if r == cc else 0 for cc in range(isz)] for r in range(size)]
+        c['A'][ko][ki] = A
+
+
+SCALE_PAIRS = [(F(1), F(0)), (F(2), F(1)), (F(-1), F(0)), (F(1), F(3)), (F(1, 2), F(0)), (F(10), F(-10))]
+
+
+def add_output_scaling(rng, md, frac=.7):
+    """solver scaling (ref, ref0, res_ref) on component outputs: scalars and arrays, positive and negative spans"""
+    for o in md['outs']:
+        if md['comps'][o['comp']]['kind'] == 'ivc' and rng.random() < .5:
+            continue
+        if rng.random() > frac:
+            continue
+        n = int(np.prod(o['shape']))
+        ref, ref0 = rng.choice(SCALE_PAIRS)
+        form = rng.randrange(4)          # 0: both scalar, 1: ref array, 2: ref0 array, 3: both arrays
+        if form in (1, 3) and n > 1:
+            o['ref'] = {'arr': [rj(rng.choice(SCALE_PAIRS)[0] + (F(5) if False else 0)) for _ in range(n)]}
+            # keep ref != ref0 elementwise
+            o['ref'] = {'arr': [rj(ref + k) for k in range(n)]}
+        else:
+            o['ref'] = rj(ref)
+        if form in (2, 3) and n > 1:
+            o['ref0'] = {'arr': [rj(ref0 - 1 - k) for k in range(n)]}
+        else:
+            o['ref0'] = rj(ref0)
+        # spans must be non-zero
+        r = [fr(x) for x in o['ref']['arr']] if isinstance(o['ref'], dict) else [fr(o['ref'])] * n
+        r0 = [fr(x) for x in o['ref0']['arr']] if isinstance(o['ref0'], dict) else [fr(o['ref0'])] * n
+        if any(a == b for a, b in zip(r, r0)):
+            o['ref'], o['ref0'] = rj(F(2)), rj(F(1))
+        o['res_ref'] = rng.choice([None, rj(F(4)), rj(F(-2)), rj(F(1, 2))])
+    md['scaled'] = True
+    return md
+
+
+def add_vois(rng, md, scaling=True, indices=True):
+    """design variables on the independent outputs, responses on some component outputs"""
+    dvs, rs = [], []
+    for oid in md['comps'][0]['outs']:
+        o = md['outs'][oid]
+        dv = {'name': None, 'oid': oid, 'indices_term': None, 'flat_indices': False, 'scaler': None, 'adder': None,
+              'ref': None, 'ref0': None}
+        if indices and rng.random() < .5:
+            t, flat, pos, rshape = rand_term(rng, o['shape'], ['arr', 'slice', 'neg', 'tuple'])
+            if len(set(pos)) == len(pos):
+                dv['indices_term'], dv['flat_indices'] = t, flat
+        if scaling:
+            _rand_scaling(rng, dv)
+        dvs.append(dv)
+    cand = [o for o in md['outs'] if md['comps'][o['comp']]['kind'] != 'ivc']
+    rng.shuffle(cand)
+    for o in cand[:rng.randrange(1, 4)]:
+        r = {'name': None, 'oid': o['id'], 'indices_term': None, 'flat_indices': False, 'scaler': None, 'adder': None,
+             'ref': None, 'ref0': None, 'type': 'con', 'lower': 0}
+        if indices and rng.random() < .5:
+            t, flat, pos, rshape = rand_term(rng, o['shape'], ['arr', 'slice', 'neg', 'tuple', 'rep'])
+            r['indices_term'], r['flat_indices'] = t, flat
+        if scaling:
+            _rand_scaling(rng, r)
+        rs.append(r)
+    md['desvars'], md['responses'] = dvs, rs
+    return md
+
+
+def _rand_scaling(rng, v):
+    c = rng.randrange(4)
+    if c == 1:
+        v['scaler'] = rj(rng.choice([F(2), F(-1), F(1, 2), F(4)]))
+        v['adder'] = rj(rng.choice([F(0), F(1), F(-2)]))
+    elif c == 2:
+        ref0 = rng.choice([F(0), F(1), F(3)])
+        ref = ref0 + rng.choice([F(1), F(2), F(-1), F(-2), F(4)])
+        v['ref'], v['ref0'] = rj(ref), rj(ref0)
+
+
+def voi_scaler_adder(v):
+    """total (scaler, adder) as exact fractions: scaled = (x + adder) * scaler"""
+    if v.get('ref') is not None or v.get('ref0') is not None:
+        ref = fr(v['ref']) if v.get('ref') is not None else F(1)
+        ref0 = fr(v['ref0']) if v.get('ref0') is not None else F(0)
+        return 1 / (ref - ref0), -ref0
+    s = fr(v['scaler']) if v.get('scaler') is not None else F(1)
+    a = fr(v['adder']) if v.get('adder') is not None else F(0)
+    return s, a
 
 
 # ------------------------------------------------------------------------------------------------ reference (Fractions)
